@@ -2,17 +2,20 @@
 `ofxtools.Parser.TreeBuilder.feed/_feedmatch/_start/_groomstring` on top of CPython's C
 `xml.etree.ElementTree.TreeBuilder` (`start/data/end/close`), as a stack machine.
 
-Behaviour of the C `TreeBuilder` reproduced (observed on CPython 3.12 with `ET.TreeBuilder()` directly):
+Behaviour reproduced (C `xml.etree.ElementTree.TreeBuilder`, observed on CPython 3.12, plus the overrides
+`start/end/close` of `ofxtools.Parser.TreeBuilder` that keep the stack `_open_tags`):
 * `start(tag)` creates an element and appends it to the innermost open element; with no open element
-  it becomes the root; if a root already exists it raises `xml.etree.ElementTree.ParseError`
+  it becomes the root; if a root already exists the C builder raises `xml.etree.ElementTree.ParseError`
   ("multiple elements on top level") — a `SyntaxError` subclass like ofxtools' own `ParseError`, both are
-  `Err.parse` here;
+  `Err.parse` here; then the tag is pushed on `_open_tags`;
 * `data(s)` directly after `start` ends up as the `text` of the element just started (ofxtools calls
   `data` only there, always followed by `end`);
-* `end(tag)` pops the innermost open element **without comparing `tag`**; with nothing open it raises
-  `IndexError` ("pop from empty stack");
-* `close()` never raises: it returns the root — whatever is still open stays attached to its parent —
-  or `None` when no element was ever started.
+* `end(tag)` raises `ParseError` when nothing is open or when `tag` differs from the innermost open tag;
+  otherwise it pops (both stacks);
+* `close()` raises `ParseError` when an element is still open or when no element was ever started; otherwise
+  it returns the root.
+`_open_tags` is not a separate component of the state: it is, at every moment, the list of the tags of the open
+frames (`start` pushes on both after the C call succeeded, `end` pops both after its checks).
 Elements built this way have `tail = None` throughout, `text = None` unless `data` was called.
 -/
 import OfxModel.Ofx.Lexer
@@ -55,23 +58,22 @@ def St.data (d : Str) (st : St) : St :=
   | f :: fs =>
     { st with stack := { f with text := (match f.text with | none => some d | some x => some (x ++ d)) } :: fs }
 
-/-- `TreeBuilder.end(tag)`: the tag is not looked at -/
-def St.end_ (st : St) : PyM St :=
+/-- `TreeBuilder.end(tag)` -/
+def St.end_ (tag : Str) (st : St) : PyM St :=
   match st.stack with
-  | [] => .error .index                   -- IndexError: pop from empty stack
-  | [f] => .ok ⟨[], some f.toTree⟩
-  | f :: g :: fs => .ok { st with stack := g.add f.toTree :: fs }
-
-/-- what the root looks like when the elements of the stack are still open -/
-def collapse (f : Frame) : List Frame → Tree
-  | [] => f.toTree
-  | g :: fs => collapse (g.add f.toTree) fs
+  | [] => .error .parse                   -- ParseError: end tag without open element
+  | f :: fs =>
+    if f.tag ≠ tag then .error .parse     -- ParseError: end tag doesn't match the open element
+    else match fs with
+      | [] => .ok ⟨[], some f.toTree⟩
+      | g :: gs => .ok { st with stack := g.add f.toTree :: gs }
 
 /-- `TreeBuilder.close()` -/
-def St.close (st : St) : Option Tree :=
-  match st.stack with
-  | [] => st.root
-  | f :: fs => some (collapse f fs)
+def St.close (st : St) : PyM Tree :=
+  match st.stack, st.root with
+  | _ :: _, _ => .error .parse            -- ParseError: missing end tag
+  | [], none => .error .parse             -- ParseError: no element found
+  | [], some r => .ok r
 
 /-- `_groomstring`: `(string or "").strip()`, `None` when empty -/
 def groom : Option Str → Option Str
@@ -89,8 +91,8 @@ def truthy : Option Str → Bool
 def startElem (tag : Str) (text closetag : Option Str) (st : St) : PyM St := do
   let st ← st.start tag
   match text with
-  | some (c :: cs) => (st.data (c :: cs)).end_
-  | _ => if truthy closetag then st.end_ else pure st
+  | some (c :: cs) => (st.data (c :: cs)).end_ tag
+  | _ => if truthy closetag then st.end_ tag else pure st
 
 /-- `tag.startswith("/")` -/
 def isEndTag : Str → Bool
@@ -103,7 +105,7 @@ def feedMatch (tag : Str) (text closetag : Option Str) (st : St) : PyM St :=
   else if !(closetag == none || closetag == some tag) then .error .assert   -- assert closetag is None or closetag == tag
   else if isEndTag tag then
     (if truthy text then .error .parse     -- ParseError: tail text after an end tag
-     else st.end_)                         -- self.end(tag[1:]): the name is not used by the C builder
+     else st.end_ (tag.drop 1))            -- self.end(tag[1:])
   else startElem tag text closetag st
 
 /-- the body of the `for match in finditer` loop -/
@@ -124,10 +126,14 @@ def feedToks : List Match → St → PyM St
 /-- `TreeBuilder.feed(s)` on a fresh builder -/
 def feed (s : Str) : PyM St := feedToks (toks s) St.init
 
-/-- `b = TreeBuilder(); b.feed(s); b.close()` -/
+/-- `b = TreeBuilder(); b.feed(s); b.close()`.  The result is never `none` (kept as an `Option` for the callers
+    written when `close()` could return `None`). -/
 def parse (s : Str) : PyM (Option Tree) :=
   match feed s with
-  | .ok st => .ok st.close
+  | .ok st =>
+    match st.close with
+    | .ok r => .ok (some r)
+    | .error e => .error e
   | .error e => .error e
 
 end Ofx.Builder
